@@ -736,9 +736,9 @@ pub fn check() -> PropertyCheck {
             "a combination a documented rule rejects but build_config accepts is not itself flagged; that it can run is checked by the builder / cli-run sub-checks",
         ],
         subs: vec![
-            Box::new(Pbt { name: "layering", quick: 20_000, thorough: 2_000_000, strat: layer_strat, test: layer_test, max_shrink: 4000 }),
+            Box::new(Pbt { name: "layering", quick: 150_000, thorough: 2_000_000, strat: layer_strat, test: layer_test, max_shrink: 4000 }),
             Box::new(Pbt { name: "builder", quick: 60_000, thorough: 5_000_000, strat: build_strat, test: build_test, max_shrink: 3000 }),
-            Box::new(Pbt { name: "cli-run", quick: 20_000, thorough: 2_000_000, strat: cli_run_strat, test: cli_run_test, max_shrink: 3000 }),
+            Box::new(Pbt { name: "cli-run", quick: 60_000, thorough: 2_000_000, strat: cli_run_strat, test: cli_run_test, max_shrink: 3000 }),
         ],
     }
 }
